@@ -154,6 +154,11 @@ pub fn cli(run: &dyn Fn(&Cfg) -> Option<Report>, replay_fn: &dyn Fn(&Cfg, &Value
     // an empty trust store: 'untrusted certificate' is then deterministic and building a TLS connector is cheap
     std::env::set_var("SSL_CERT_FILE", "/dev/null");
     std::env::set_var("SSL_CERT_DIR", "/nonexistent-rdpverif");
+    if cfg.prop == "C02" && !cfg!(miri) {
+        // C02 alone also meets a TRUSTED certificate: the process then trusts one authority, the harness's own
+        // (tls::TRUSTED_IDENTITY); set up here, while the process still has a single thread
+        tls::init_trust_env();
+    }
     mon::install_panic_hook();
     // under Miri there are no signals and no thread CPU clocks; the interpreter itself is the monitor
     if !cfg!(miri) {
@@ -199,6 +204,7 @@ pub fn cli(run: &dyn Fn(&Cfg) -> Option<Report>, replay_fn: &dyn Fn(&Cfg, &Value
         }
         None => println!("{}", s),
     }
+    tls::cleanup_trust_env();
     // the library under test prints diagnostics to stdout; the verdict travels in the JSON only
     std::process::exit(0);
 }
